@@ -11,6 +11,7 @@ from __future__ import annotations
 import contextlib
 import inspect
 import logging
+import operator
 import threading
 from abc import ABC, abstractmethod
 from collections.abc import Callable, Iterable, Sized
@@ -20,7 +21,7 @@ from itertools import count
 from math import inf
 from opcode import opname
 from types import BuiltinFunctionType, BuiltinMethodType, CodeType, MethodType, TracebackType
-from typing import TYPE_CHECKING, Concatenate, ParamSpec
+from typing import TYPE_CHECKING, Any, Concatenate, ParamSpec
 
 from bytecode.instr import CellVar, FreeVar
 
@@ -1179,6 +1180,94 @@ def _isn(val1, val2) -> float:
     return 1.0
 
 
+def _falsy_distance(value) -> float:
+    """Distance computation for the false outcome of a truthy value.
+
+    Args:
+        value: the truthy value
+
+    Returns:
+        the distance
+    """
+    if isinstance(value, Sized):
+        # Sized instances evaluate to False if they are empty,
+        # and to True otherwise, thus we can use their size as a distance
+        # measurement.
+        return len(value)
+    if is_numeric(value):
+        # For numeric value, we can use their absolute value
+        return float(abs(value))
+    # Necessary to use inf instead of 1.0 here,
+    # so that a value for which we can't compute a false distance
+    # always has the greatest distance to the false branch than an
+    # object for which we can compute a distance.
+    return inf
+
+
+def _missed_branch_distance(estimate: Callable[[], float]) -> float:
+    """Computes the distance to the branch that is *not* taken.
+
+    Such a distance is larger than zero by definition.  The estimate is merely a
+    heuristic that is evaluated inside the module under test.  Thus, it must neither
+    raise (e.g., because an ``int`` does not fit into a ``float`` or because a class
+    lacks the converse comparison operator) nor yield ``0.0`` or ``NaN`` (e.g., due
+    to the limited precision of ``float`` or for unordered values).  In these cases
+    there is no guidance, which is expressed by ``inf``.
+
+    Args:
+        estimate: computes the estimated distance
+
+    Returns:
+        the distance, which is always larger than zero
+    """
+    try:
+        distance = estimate()
+    except Exception:  # noqa: BLE001
+        return inf
+    return distance if distance > 0.0 else inf
+
+
+# For each compare operation: the comparison that the module under test performs,
+# the distance to its true outcome, and the distance to its false outcome.
+_COMPARISONS: dict[
+    PynguinCompare,
+    tuple[Callable[[Any, Any], Any], Callable[[Any, Any], float], Callable[[Any, Any], float]],
+] = {
+    PynguinCompare.EQ: (operator.eq, _eq, _neq),
+    PynguinCompare.NE: (operator.ne, _neq, _eq),
+    PynguinCompare.LT: (operator.lt, _lt, lambda val1, val2: _le(val2, val1)),
+    PynguinCompare.LE: (operator.le, _le, lambda val1, val2: _lt(val2, val1)),
+    PynguinCompare.GT: (operator.gt, lambda val1, val2: _lt(val2, val1), _le),
+    PynguinCompare.GE: (operator.ge, lambda val1, val2: _le(val2, val1), _lt),
+    PynguinCompare.IN: (lambda val1, val2: val1 in val2, _in, _nin),
+    PynguinCompare.NOT_IN: (lambda val1, val2: val1 not in val2, _nin, _in),
+    PynguinCompare.IS: (operator.is_, _is, _isn),
+    PynguinCompare.IS_NOT: (operator.is_not, _isn, _is),
+}
+
+
+def _compare_distances(cmp_op: PynguinCompare, val1, val2) -> tuple[float, float]:
+    """Computes the true and the false distance of a comparison.
+
+    The comparison is evaluated exactly once and exactly as the module under test
+    evaluates it.  Hence, this raises if and only if the comparison itself raises.
+    The distance of the outcome that the comparison yields is 0.0, the distance of the
+    other outcome is larger than zero.
+
+    Args:
+        cmp_op: the compare operation
+        val1: the first value
+        val2: the second value
+
+    Returns:
+        the true distance and the false distance
+    """
+    compare, true_distance, false_distance = _COMPARISONS[cmp_op]
+    if compare(val1, val2):
+        return 0.0, _missed_branch_distance(lambda: false_distance(val1, val2))
+    return _missed_branch_distance(lambda: true_distance(val1, val2)), 0.0
+
+
 _P = ParamSpec("_P")
 
 
@@ -1310,60 +1399,16 @@ class ExecutionTracer(AbstractExecutionTracer):  # noqa: PLR0904
         self._thread_local_state.trace.executed_code_objects.add(code_object_id)
 
     @_early_return
-    def executed_compare_predicate(  # noqa: D102, C901
+    def executed_compare_predicate(  # noqa: D102
         self, value1, value2, predicate: int, cmp_op: PynguinCompare
     ) -> None:
         with self.temporarily_disable():
             value1 = tt.unwrap(value1)
             value2 = tt.unwrap(value2)
 
-            match cmp_op:
-                case PynguinCompare.EQ:
-                    distance_true, distance_false = _eq(value1, value2), _neq(value1, value2)
-                case PynguinCompare.NE:
-                    distance_true, distance_false = _neq(value1, value2), _eq(value1, value2)
-                case PynguinCompare.LT:
-                    distance_true, distance_false = (
-                        _lt(value1, value2),
-                        _le(value2, value1),
-                    )
-                case PynguinCompare.LE:
-                    distance_true, distance_false = (
-                        _le(value1, value2),
-                        _lt(value2, value1),
-                    )
-                case PynguinCompare.GT:
-                    distance_true, distance_false = (
-                        _lt(value2, value1),
-                        _le(value1, value2),
-                    )
-                case PynguinCompare.GE:
-                    distance_true, distance_false = (
-                        _le(value2, value1),
-                        _lt(value1, value2),
-                    )
-                case PynguinCompare.IN:
-                    distance_true, distance_false = (
-                        _in(value1, value2),
-                        _nin(value1, value2),
-                    )
-                case PynguinCompare.NOT_IN:
-                    distance_true, distance_false = (
-                        _nin(value1, value2),
-                        _in(value1, value2),
-                    )
-                case PynguinCompare.IS:
-                    distance_true, distance_false = (
-                        _is(value1, value2),
-                        _isn(value1, value2),
-                    )
-                case PynguinCompare.IS_NOT:
-                    distance_true, distance_false = (
-                        _isn(value1, value2),
-                        _is(value1, value2),
-                    )
-                case _:
-                    raise AssertionError("Unknown compare op")
+            if cmp_op not in _COMPARISONS:
+                raise AssertionError("Unknown compare op")
+            distance_true, distance_false = _compare_distances(cmp_op, value1, value2)
             self._update_metrics(distance_false, distance_true, predicate)
 
     @_early_return
@@ -1374,20 +1419,7 @@ class ExecutionTracer(AbstractExecutionTracer):  # noqa: PLR0904
             # Might be necessary when using Proxies.
             value = tt.unwrap(value)
             if value:
-                if isinstance(value, Sized):
-                    # Sized instances evaluate to False if they are empty,
-                    # and to True otherwise, thus we can use their size as a distance
-                    # measurement.
-                    distance_false = len(value)
-                elif is_numeric(value):
-                    # For numeric value, we can use their absolute value
-                    distance_false = float(abs(value))
-                else:
-                    # Necessary to use inf instead of 1.0 here,
-                    # so that a value for which we can't compute a false distance
-                    # always has the greatest distance to the false branch than an
-                    # object for which we can compute a distance.
-                    distance_false = inf
+                distance_false = _missed_branch_distance(lambda: _falsy_distance(value))
             else:
                 distance_true = 1.0
 
